@@ -313,6 +313,64 @@ func RunEnumWorker(p Params) *Summary {
 			}
 		}
 	}
+	// (g) extreme and oddly spelled array indices (never with EnsurePathExistsOnAdd, whose padding is
+	// outside the stated domain above 10^4), and strings that end in runs of malformed UTF-8
+	{
+		idx := []string{"-9223372036854775808", "9223372036854775807", "-9223372036854775809", "9223372036854775808", "18446744073709551616", "4294967296", "-4294967296", "2147483648", "-2147483649",
+			"-0", "00", "01", "+1", "1e2", "1.0", " 1", "1 ", "0x1", "\uff11", "-", "--1", "-1", "-2", "-3"}
+		docs := []string{`[1,2]`, `{"a":[1,[2,3]],"b":[]}`}
+		for _, target := range targets {
+			for di, d := range docs {
+				base := ""
+				if di == 1 {
+					base = "/a"
+				}
+				var batch []string
+				for _, ix := range idx {
+					p := fmt.Sprintf("%q", base+"/"+ix)
+					q := fmt.Sprintf("%q", base+"/1/"+ix)
+					batch = append(batch,
+						`[{"op":"add","path":`+p+`,"value":9}]`, `[{"op":"remove","path":`+p+`}]`, `[{"op":"replace","path":`+p+`,"value":9}]`, `[{"op":"test","path":`+p+`,"value":1}]`,
+						`[{"op":"move","from":`+p+`,"path":"`+base+`/0"}]`, `[{"op":"copy","from":"`+base+`/0","path":`+p+`}]`, `[{"op":"add","path":`+q+`,"value":9}]`, `[{"op":"remove","path":`+q+`}]`)
+				}
+				for i := 0; i < len(batch); i += 16 {
+					j := i + 16
+					if j > len(batch) {
+						j = len(batch)
+					}
+					for _, neg := range []bool{true, false} {
+						if mine() {
+							sc := patchListScenario(seed, target, d, batch[i:j], item)
+							for k := range sc.Tasks[0] {
+								if c := &sc.Tasks[0][k]; usesOpts(c.Fn) {
+									c.Opts = Opts{Neg: neg, Allow: item%2 == 0}
+								}
+							}
+							sc.Cfg.PkgNegOff = !neg
+							exec(sc, "extreme-index")
+						}
+					}
+				}
+			}
+		}
+		var bad []string
+		for _, b := range []string{"\xff", "\x80", "\xc0\xaf", "\xed\xa0\x80", "\xf4\x90"} {
+			for _, n := range []int{1, 2, 3, 4, 5, 6, 7, 8, 13, 25, 26, 27, 28, 29, 64} {
+				run := strings.Repeat(b, n)
+				bad = append(bad, `{"`+run+`":1}`, `{"k":"ab`+run+`"}`, `["`+run+`x"]`)
+			}
+		}
+		for _, target := range targets {
+			for i := 0; i < len(bad); i++ {
+				if mine() {
+					exec(pairScenario(seed, target, bad[i], bad[(i+7)%len(bad)], item), "malformed-utf8-run")
+				}
+				if mine() {
+					exec(variantScenario(seed, target, `{"k":1}`, `[{"op":"add","path":"/k","value":2}]`, `{"k":null}`, bad[i], item), "malformed-utf8-run")
+				}
+			}
+		}
+	}
 	// (f) compositions near the nesting limit: the scanner accepts 10^4 levels, and copy/move/add can
 	// put a deep subtree at a deep position, so that what is serialised into ONE raw value (by copy)
 	// or into the result exceeds what the decoder will read back
@@ -377,6 +435,7 @@ func RunEnumWorker(p Params) *Summary {
 			"single-byte substitution from {}[],:\"\\0-n NUL 0xFF at every offset of the same texts x every entry point x {v5, legacy}",
 			fmt.Sprintf("every ordered pair of %d small values x two-argument functions and DecodePatch/Apply x {v5, legacy}", len(smallValues)),
 			"10 operation templates x every small value x 6 documents x {v5, legacy}",
+			"24 extreme or oddly spelled array indices x 8 operation shapes x 2 documents x negative indices on/off x {v5, legacy}; 225 texts with runs of 1-64 malformed UTF-8 sequences in names and strings x every entry point",
 			"near-limit nesting: documents nested 9000 deep (arrays, objects) x two copies of the deep subtree into positions at depth {1500,20} x {1200,10} x {no, add, test, remove, copy, move} as a third operation through the result x {v5, legacy}",
 			map[bool]string{true: "pointer algebra, three operations: every ordered pair followed by each of every 7th operation as a third (thorough tier)", false: "pointer algebra with a third operation: thorough tier only"}[p.Tier == "thorough"],
 			fmt.Sprintf("pointer algebra: every ordered pair of %d single operations (add/remove/replace/test/move/copy with path and from drawn from %d pointers around the empty reference token) x %d documents x {v5, legacy}", len(ops), len(algebraPointers), len(algebraDocs)),
